@@ -319,6 +319,12 @@ theorem reload_mutex_serialises {α : Type} (progs : List (List α)) (sched : Li
     noInterleave ((ReloadMutex.exec progs sched).log.map (·.1)) = true :=
   ReloadMutex.Inv.serialised _ (ReloadMutex.Inv.exec progs sched)
 
+/-- … and within its block every `Reload` call runs its hooks in their order: what call `t` has emitted is
+    a prefix of its hook sequence, under every schedule. -/
+theorem reload_mutex_program_order {α : Type} (progs : List (List α)) (sched : List Nat) (t : Nat) (p : List α)
+    (hp : progs[t]? = some p) : ReloadMutex.emitted (ReloadMutex.exec progs sched) t <+: p :=
+  ReloadMutex.emitted_prefix progs sched t p hp
+
 /-- … and that is the mutex's doing: without it two calls interleave under the schedule 0 0 1 1 0 1 -/
 theorem reload_without_mutex_interleaves :
     noInterleave ((ReloadMutex.execNoMutex [["a0", "a1"], ["b0", "b1"]] [0, 0, 1, 1, 0, 1]).log.map (·.1)) = false := by
